@@ -432,6 +432,7 @@ type orderSpec struct {
 // instrumented copy of the library.
 func C17() *sim.Check {
 	sitesByID := loadSites()
+	libGoroutines, libBlocking := sitesOfKind("go") > 0, sitesOfKind("blocking") > 0
 	b := &sim.Batch{Name: "orders", Quick: 900, Thorough: 30_000, Isolated: true, PerProc: 40, Workers: 16, ChildTimeout: 1800 * time.Second, StallAfter: 300 * time.Second, Env: []string{"TZ=America/St_Johns"}}
 	b.ChildInit = startDetHelper
 	b.Run = func(c *sim.RunCtx) *sim.Outcome {
@@ -457,6 +458,43 @@ func C17() *sim.Check {
 					out.Human = map[string]any{"values": desc, "operation": op.name}
 				}
 				return out
+			}
+		}
+		// the library starts goroutines of its own (none on the tree as pinned):
+		// their interleaving is one more thing nothing observable may depend on.
+		// Each operation runs as the only caller under the task scheduler, twice,
+		// with schedules drawn from the tape; the library's goroutines are tasks.
+		if libGoroutines && !libBlocking {
+			for pass := 0; pass < 2; pass++ {
+				for i, op := range ops {
+					if op.heavy {
+						continue
+					}
+					st := simrt.NewSchedTape(t.State(), t.Remaining(), t.Replaying())
+					simrt.SetOrder(simrt.OrderSorted, nil)
+					var got string
+					res := simrt.Run(st, 50_000_000, []func(){func() { got = safeOp(op) }})
+					t.Absorb(st.Rec)
+					t.SetState(st.State())
+					c.St.Inc("op_executions")
+					c.St.Add("fired_library_goroutine_schedules", 1)
+					c.St.Add("fired_library_goroutine_switches", res.Switches)
+					if res.Aborted {
+						simrt.SetOrder(simrt.OrderNative, nil)
+						simrt.SetClock(false, time.Time{}, nil)
+						return &sim.Outcome{Class: "no-progress", Key: "determ:sched:" + op.name, Detail: op.name + ": the library's own goroutines did not finish under the simulated schedule"}
+					}
+					if got != ref[i] {
+						simrt.SetOrder(simrt.OrderNative, nil)
+						simrt.SetClock(false, time.Time{}, nil)
+						out := &sim.Outcome{Class: "schedule-dependent", Key: "determ:sched:" + op.name,
+							Detail: fmt.Sprintf("%s gives different output under another interleaving of the goroutines the library starts: %s", op.name, firstDiff(got, ref[i]))}
+						if c.Explain {
+							out.Human = map[string]any{"values": desc, "operation": op.name, "context_switches": res.Switches, "output_reference": clipS(ref[i], 3000), "output_this_schedule": clipS(got, 3000)}
+						}
+						return out
+					}
+				}
 			}
 		}
 		orders := []orderSpec{{"reverse", simrt.OrderReverse}, {"rotate", simrt.OrderRotate}, {"random", simrt.OrderRandom}, {"random", simrt.OrderRandom},
